@@ -21,6 +21,11 @@ func init() {
 
 // truth: rows the declaration derives from canonical block b (through a fresh uncached client and the real row builder)
 func (w *world) truthRows(t *wTask) []string {
+	if rows, ok := w.indepRows(t); ok {
+		w.tags["truth=independent-of-dig"]++
+		return rows
+	}
+	w.tags["truth=real-row-builder"]++
 	var out []string
 	var chain *simnode.Chain
 	w.node.With(func(c *simnode.Chain) { chain = c.Clone() })
@@ -101,7 +106,11 @@ func runC01(e *core.Env) error {
 				break
 			}
 			rr := r.Fork()
-			chain := transferChain(2+rr.Intn(4), uint64(1+rr.Intn(1000)))
+			clen := 2 + rr.Intn(4)
+			if rr.Bool() {
+				clen += pr.b // long enough for full batches (every slice of a loaded batch must be written)
+			}
+			chain := transferChain(clen, uint64(1+rr.Intn(1000)))
 			w, err := newWorld(e, chain)
 			if err != nil {
 				return err
@@ -218,5 +227,15 @@ func transferMakeTx(salt, num, idx uint64, tx *simnode.Tx) {
 		l := &tx.Logs[1]
 		l.Topics = [][]byte{approvalEvent.SignatureHash(), padAddr(simnode.Derive("owner", salt, num, idx)[:20]), padAddr(simnode.Derive("spender", salt, num, idx)[:20])}
 		l.Data = simnode.Derive("aval", salt, num, idx)
+	}
+	if idx%2 == 1 && len(tx.Logs) > 1 {
+		t0 := tx.Logs[0]
+		// a SECOND Transfer in the same transaction (two matching logs of one filter in one transaction)
+		tx.Logs = append(tx.Logs, simnode.Log{Idx: 100 + 2*idx, Addr: t0.Addr,
+			Topics: [][]byte{t0.Topics[0], padAddr(simnode.Derive("from2", salt, num, idx)[:20]), t0.Topics[2]}, Data: simnode.Derive("val2", salt, num, idx)})
+		// a DECOY: same signature hash, one more indexed topic, no data (an ERC-721 Transfer seen by an
+		// ERC-20 declaration): must produce no row
+		tx.Logs = append(tx.Logs, simnode.Log{Idx: 101 + 2*idx, Addr: simnode.Derive("nft", salt, num, idx)[:20],
+			Topics: [][]byte{t0.Topics[0], t0.Topics[1], t0.Topics[2], simnode.Derive("tokenid", salt, num, idx)}})
 	}
 }
